@@ -118,29 +118,29 @@ theorem validator_code (re : Regex) (oracle : AsyncOracle) (v : String) (f : Fil
     · simp only [ha] at h
       split at h
       · cases h
-      · cases ho : oracle "check-lua" f.path b.block with
-        | error e => simp [ho] at h
-        | ok o =>
-          cases o with
-          | none => simp [ho] at h
-          | some data =>
-            simp only [ho] at h
-            cases hs : severityOf b.block.attrs with
-            | error e => simp [hs] at h
-            | ok sev => simp only [hs, Except.ok.injEq, Option.some.injEq] at h; rw [← h]; rfl
+      · cases hcn : blockContent re f.text b.block "check-lua-pattern" ErrKind.luaError with
+        | error e => simp [hcn] at h
+        | ok c =>
+          simp only [hcn] at h
+          cases ho : oracle "check-lua" f.path b.block <;> simp only [ho] at h <;>
+            first
+              | (cases h; done)
+              | (cases hs : severityOf b.block.attrs with
+                  | error e => simp [hs] at h
+                  | ok sev => simp only [hs, Except.ok.injEq, Option.some.injEq] at h; rw [← h]; rfl)
     · simp only [ha] at h
       split at h
       · cases h
-      · cases ho : oracle "check-ai" f.path b.block with
-        | error e => simp [ho] at h
-        | ok o =>
-          cases o with
-          | none => simp [ho] at h
-          | some data =>
-            simp only [ho] at h
-            cases hs : severityOf b.block.attrs with
-            | error e => simp [hs] at h
-            | ok sev => simp only [hs, Except.ok.injEq, Option.some.injEq] at h; rw [← h]; rfl
+      · cases hcn : blockContent re f.text b.block "check-ai-pattern" ErrKind.aiError with
+        | error e => simp [hcn] at h
+        | ok c =>
+          simp only [hcn] at h
+          cases ho : oracle "check-ai" f.path b.block <;> simp only [ho] at h <;>
+            first
+              | (cases h; done)
+              | (cases hs : severityOf b.block.attrs with
+                  | error e => simp [hs] at h
+                  | ok sev => simp only [hs, Except.ok.injEq, Option.some.injEq] at h; rw [← h]; rfl)
 
 /-- the detector table (regenerated from the source) holds the seven validators, each once -/
 theorem detector_table : Gen.detectorNames.length = 7 ∧ Gen.detectorNames.Nodup ∧
